@@ -1,7 +1,7 @@
 (* C44 — part 4: the statement about diff() itself. *)
 From Coq Require Import List Lia Permutation.
 From GixV.Base Require Import Bytes BytesFacts Outcome.
-From GixV.C44 Require Import Model Spec Proofs ProofsOrder ProofsWalk.
+From GixV.C44 Require Import Model Spec Proofs ProofsOrder ProofsWalk ProofsSpec ProofsFlat ProofsApply.
 Import ListNotations.
 
 Lemma L_diff_is_tdiff db lhs rhs k L R fuel :
@@ -17,6 +17,56 @@ Proof.
   - cbn [map list_sum fold_right]. lia.
   - exists (recs s'). rewrite E. split; [reflexivity|].
     cbn [init_st recs map app flat_map] in P. rewrite app_nil_r in P. exact P.
+Qed.
+
+Lemma sdb_of_found db id es : sdb_of db id = Some es -> find_tree_iter db id = Ok (es, false).
+Proof.
+  unfold sdb_of. destruct (find_tree_iter db id) as [[es' [|]]| | |]; intros H; try discriminate.
+  injection H as ->. reflexivity.
+Qed.
+
+(* valid git trees are in particular reachable, decodable and slash-free *)
+Lemma wfs_wfl db : forall k L, wfs (sdb_of db) k L -> wfl db k L.
+Proof.
+  induction k as [|k IH]; intros L (S & N & M & C); split; try exact N.
+  - exact C.
+  - eapply Forall_impl; [|exact C]. intros e H T. destruct (H T) as [es [E W]].
+    exists es. split; [apply sdb_of_found; exact E | apply IH; exact W].
+Qed.
+
+Lemma L_diff_is_map_difference db lhs rhs k L R fuel :
+  parse_tree lhs = (L, false) -> parse_tree rhs = (R, false) ->
+  wfs (sdb_of db) k L -> wfs (sdb_of db) k R -> fuel > w db k L R ->
+  exists cs, diff fuel db lhs rhs = Ok cs /\
+    forall c, In c (map strip cs) <->
+      exists sc, c = gmap render sc /\
+        diff_spec (flatten k (sdb_of db) [] L) (flatten k (sdb_of db) [] R) sc.
+Proof.
+  intros PL PR WL WR Hf.
+  destruct (L_diff_is_tdiff db lhs rhs k L R fuel PL PR (wfs_wfl db k L WL) (wfs_wfl db k R WR) Hf)
+    as [cs [E P]].
+  exists cs. split; [exact E|]. intros c. split.
+  - intros H. apply (Permutation_in _ P) in H. apply in_map_iff in H. destruct H as [sc [<- H]].
+    exists sc. split; [reflexivity|]. apply (L_tdiff_char (sdb_of db) k [] L R WL WR). exact H.
+  - intros [sc [-> H]]. apply (Permutation_in _ (Permutation_sym P)). apply in_map.
+    apply (L_tdiff_char (sdb_of db) k [] L R WL WR). exact H.
+Qed.
+
+Lemma L_apply_diff db lhs rhs k L R fuel :
+  parse_tree lhs = (L, false) -> parse_tree rhs = (R, false) ->
+  wfs (sdb_of db) k L -> wfs (sdb_of db) k R -> fuel > w db k L R ->
+  exists cs D, diff fuel db lhs rhs = Ok cs /\
+    Permutation (map strip cs) (map (gmap render) D) /\
+    forall y, applied D (flatten k (sdb_of db) [] L) y <-> In y (flatten k (sdb_of db) [] R).
+Proof.
+  intros PL PR WL WR Hf.
+  destruct (L_diff_is_tdiff db lhs rhs k L R fuel PL PR (wfs_wfl db k L WL) (wfs_wfl db k R WR) Hf)
+    as [cs [E P]].
+  exists cs, (tdiff_level k (sdb_of db) [] L R). split; [exact E|]. split; [exact P|].
+  apply L_apply_set.
+  - apply flat_unique. exact WL.
+  - apply flat_unique. exact WR.
+  - apply L_tdiff_char; assumption.
 Qed.
 
 (* a concrete pair of trees: file "a" becomes directory "a" holding "x"; "a.b" stays *)
@@ -54,4 +104,31 @@ Proof.
     + constructor; [cbn; discriminate|]. constructor; [|constructor].
       intros _. eexists. split; [vm_compute; reflexivity|].
       split; repeat constructor; [apply ex_no_slash_x | cbn; discriminate].
+Qed.
+
+Ltac mode_tac := unfold mode_ok; cbn [emode]; let H := fresh in intro H; vm_compute in H; try discriminate H; try reflexivity.
+
+Lemma L_example_valid :
+  exists L R, parse_tree ex_lhs = (L, false) /\ parse_tree ex_rhs = (R, false) /\
+    wfs (sdb_of ex_db) 1 L /\ wfs (sdb_of ex_db) 1 R /\
+    length (flatten 1 (sdb_of ex_db) [] L) = 2%nat /\ length (flatten 1 (sdb_of ex_db) [] R) = 3%nat.
+Proof.
+  eexists. eexists. split; [vm_compute; reflexivity|]. split; [vm_compute; reflexivity|].
+  split; [|split; [|split; vm_compute; reflexivity]].
+  - split; [|split; [|split]].
+    + split; [|split; [constructor | exact I]]. constructor; [vm_compute; reflexivity | constructor].
+    + repeat constructor; [apply ex_no_slash_a | apply ex_no_slash_ab].
+    + repeat constructor; mode_tac.
+    + repeat constructor; cbn; discriminate.
+  - split; [|split; [|split]].
+    + split; [|split; [constructor | exact I]]. constructor; [vm_compute; reflexivity | constructor].
+    + repeat constructor; [apply ex_no_slash_ab | apply ex_no_slash_a].
+    + repeat constructor; mode_tac.
+    + constructor; [cbn; discriminate|]. constructor; [|constructor].
+      intros _. eexists. split; [vm_compute; reflexivity|].
+      split; [|split; [|split]].
+      * split; [constructor | exact I].
+      * repeat constructor. apply ex_no_slash_x.
+      * repeat constructor; mode_tac.
+      * repeat constructor; cbn; discriminate.
 Qed.
